@@ -96,6 +96,8 @@ def _pm_run(chunk):
 def pmap(worker, n, nproc=None):
     """fork-parallel map over range(n): worker(list_of_indices) -> result; results in chunk order."""
     import multiprocessing as mp
+    import sqlalchemy.orm      # noqa: F401  imported BEFORE the fork: compiling the library once instead of once per worker
+    import sqlalchemy.dialects.sqlite      # noqa: F401
     global _PM
     nproc = max(1, min(nproc or tlc.NPROC, tlc.NPROC, n // 8 + 1))
     chunks = [list(range(i, n, nproc)) for i in range(nproc)]
